@@ -21,10 +21,11 @@ structure DState where
                              -- none = the source failed, the iteration uses the static upstreams)
   fbs : List (CfgId × List Key) -- handlers with dynamic upstreams: their static (fallback) upstream keys
   srcFails : Bool            -- the dynamic source currently answers with an error
+  streaming : List Nat       -- requests whose response body is being copied (headers arrived, body not finished)
   aged : List Nat            -- requests that were already parked while a slow answer (`sl`) was being waited for:
                              -- their own round trip has taken longer than unhealthy_latency, whatever comes
 
-def dinit : DState := { s := init, cur := none, down := [], keys := [], iters := [], fbs := [], srcFails := false, aged := [] }
+def dinit : DState := { s := init, cur := none, down := [], keys := [], iters := [], fbs := [], srcFails := false, streaming := [], aged := [] }
 
 def stores (s : State) (c : CfgId) : List Key → Option State
   | [] => some s
@@ -130,6 +131,8 @@ def strikesFor (p : Params) (what : String) (code : Nat) (aged : Bool := false) 
 inductive SStep
   | load (ks : List Key) (p : Params) (fb : List Key)   -- fb: static upstreams of a handler with a dynamic source
   | srcFail (b : Bool)
+  | streamBegin (r : Nat)   -- the backend sends a 200 header and the first part of the body, then pauses
+  | streamEnd (r : Nat)     -- …and finishes the body
   | badLoad (ks : List Key)
   | unloadCur
   | newReq (get : Bool)
@@ -170,6 +173,7 @@ def agedAfter (d : DState) : SStep → List Nat
       (d.aged.filter (· != r)) ++ (List.range d.s.reqs.length).filter (fun r' => r' != r && isParked d.s r')
     else d.aged.filter (· != r)
   | .abort r => d.aged.filter (· != r)
+  | .streamBegin r => d.aged.filter (· != r)
   | _ => d.aged
 
 def tickN (s : State) : Nat → State
@@ -335,8 +339,28 @@ def sstep (d : DState) : SStep → Option (DState × String)
       | some s1 =>
         if isDynReq s1 d.s.reqs.length then advanceAny { d with s := s1 } d.s.reqs.length
         else (advance fuel0 { d with s := s1 } d.s.reqs.length).map fun x => ({ d with s := x.1 }, x.2)
+  | .streamBegin r =>
+    -- RoundTrip returned the response: status (and latency) strikes happen now; the request stays
+    -- in flight while the body is copied (reverseproxy.go:1066 copyResponse inside reverseProxy)
+    if isParked d.s r && !d.streaming.contains r then
+      match d.s.reqs[r]? with
+      | none => none
+      | some q =>
+        match strikesN d.s r (strikesFor q.par "ok" 200 (d.aged.contains r)) with
+        | none => none
+        | some s1 => some ({ d with s := s1, streaming := r :: d.streaming }, "S")
+    else none
+  | .streamEnd r =>
+    if d.streaming.contains r && isParked d.s r then
+      match endAttempt d.s r .ok with
+      | none => none
+      | some s1 =>
+        if isDynReq d.s r then continueOrRetDyn { d with streaming := d.streaming.filter (· != r) } s1 r "ok"
+        else some ({ d with s := s1, streaming := d.streaming.filter (· != r) }, "ok")
+    else none
   | .answer r what =>
-    if isParked d.s r && isDynReq d.s r then
+    if d.streaming.contains r then none
+    else if isParked d.s r && isDynReq d.s r then
       match d.s.reqs[r]? with
       | none => none
       | some q =>
@@ -386,7 +410,15 @@ def sstep (d : DState) : SStep → Option (DState × String)
               else (endAttempt s1 r .ok).map fun s2 => ({ d with s := s2 }, "ok")
     else none
   | .abort r =>
-    if isParked d.s r && isDynReq d.s r then
+    if d.streaming.contains r && isParked d.s r then
+      -- the client goes away while the body is copied: copyResponse fails, the handler panics
+      -- with http.ErrAbortHandler (reverseproxy.go:1073-1084); nothing is counted
+      match endAttempt d.s r .panic with
+      | none => none
+      | some s1 =>
+        if isDynReq d.s r then continueOrRetDyn { d with streaming := d.streaming.filter (· != r) } s1 r "panic"
+        else some ({ d with s := s1, streaming := d.streaming.filter (· != r) }, "panic")
+    else if isParked d.s r && isDynReq d.s r then
       match endAttempt d.s r .clientAbort with
       | none => none
       | some s1 => continueOrRetDyn d s1 r "ok"
